@@ -134,7 +134,7 @@ func (lr *liveRunner) snapshot(watchEnv []string) map[string]any {
 			}
 			envW = append(envW, KV{w, v})
 		}
-		cmds = append(cmds, map[string]any{"serial": c.Serial, "base": m[0], "num": m[1], "alive": c.Alive, "signalled": c.Signalled,
+		cmds = append(cmds, map[string]any{"serial": c.Serial, "base": m[0], "num": m[1], "rname": c.Proc, "alive": c.Alive, "signalled": c.Signalled,
 			"launchSeq": c.LaunchSeq, "exitSeq": c.ExitSeq, "sigSeq": c.SigSeq, "argv": c.Argv, "dir": c.Dir, "env": envW})
 	}
 	lr.mu.Unlock()
@@ -327,6 +327,7 @@ type updProc struct {
 	entry  []string
 	policy string
 	signal int
+	reps   int // replicas (0: one)
 }
 
 func (u updProc) render() AProc {
@@ -341,6 +342,7 @@ func (u updProc) render() AProc {
 	}
 	p.Env = u.env
 	p.Deps = u.deps
+	p.Replicas = u.reps
 	if u.probe != "" {
 		p.ProbeKind = "exec"
 		p.Probe = map[string]string{"command": u.probe}
@@ -534,6 +536,8 @@ func updateRecords(rec *recWriter, r *rand.Rand, dir string, seed int64, tier st
 			if r.Intn(4) == 0 {
 				u.policy = "on_failure" // crash-looping: mostly found in its restart back-off
 				crashers[u.name] = true
+			} else if r.Intn(4) == 0 {
+				u.reps = 2 // a replicated process: the update is per replica (keys are replica names)
 			}
 			base = append(base, u)
 		}
@@ -579,8 +583,13 @@ func updateRecords(rec *recWriter, r *rand.Rand, dir string, seed int64, tier st
 					nf := 1 + r.Intn(2)
 					c := u
 					fields := []string{}
+					used := map[string]bool{}
 					for j := 0; j < nf; j++ {
 						fld := relevantFields[r.Intn(len(relevantFields))]
+						if used[fld] {
+							continue // toggling fields (restart policy, depends_on) would cancel out
+						}
+						used[fld] = true
 						if fld == "command" && len(u.entry) > 0 {
 							fld = "entrypoint"
 						}
@@ -623,6 +632,28 @@ func updateRecords(rec *recWriter, r *rand.Rand, dir string, seed int64, tier st
 			for _, ch := range changes {
 				ch["gated"] = gatedSet[ch["name"].(string)]
 			}
+			// a replicated process is updated replica by replica: one change entry per replica name
+			repsOf := map[string]int{}
+			for _, u := range cur {
+				repsOf[u.name] = u.reps
+			}
+			expanded := []map[string]any{}
+			for _, ch := range changes {
+				nm := ch["name"].(string)
+				if repsOf[nm] <= 1 {
+					expanded = append(expanded, ch)
+					continue
+				}
+				for k := 0; k < repsOf[nm]; k++ {
+					c2 := map[string]any{}
+					for kk, vv := range ch {
+						c2[kk] = vv
+					}
+					c2["name"] = fmt.Sprintf("%s-%d", nm, k)
+					expanded = append(expanded, c2)
+				}
+			}
+			changes = expanded
 			p2 := writeFile(dir, fmt.Sprintf("upd%d.yaml", step+1), renderUpd(next, tgt))
 			project2, err := load([]string{p2})
 			if err != nil {
@@ -655,7 +686,7 @@ func updateRecords(rec *recWriter, r *rand.Rand, dir string, seed int64, tier st
 			}
 			sort.Slice(st, func(a, b int) bool { return st[a][0] < st[b][0] })
 			rec.put(map[string]any{"kind": "update", "id": fmt.Sprintf("update-%d-%d-%d", seed, k, step), "changes": changes, "newNames": newNames,
-				"expect": expect, "status": st, "err": uerr != nil, "before": before, "after": after, "later": later, "crashers": crasherList(crashers)})
+				"expect": expect, "status": st, "err": uerr != nil, "errText": fmt.Sprint(uerr), "before": before, "after": after, "later": later, "crashers": crasherList(crashers)})
 			if uerr != nil {
 				break
 			}
